@@ -178,18 +178,35 @@ func checkBlock(c *core.Ctx, block []byte, hash []byte, wantSigs int, site strin
 func TestHistory(t *testing.T) {
 	rapid.Check(t, func(t *rapid.T) {
 		core.Run(t, "ib/history", func(c *core.Ctx) {
-			data := c.Bytes("file.data", 8, 300)
-			sum := sha512.Sum512(data)
-			hash := sum[:]
-			blk := &integrityblock.IntegrityBlock{Magic: integrityblock.IntegrityBlockMagic, Version: integrityblock.VersionB1}
-			ibs := &integrityblock.IntegrityBlockSigner{WebBundleHash: hash, IntegrityBlock: blk}
-			k := c.Int("signings", 1, 4)
+			// one or two bundles are being signed, each with its own block and signer; when
+			// there are two, their signing operations alternate in a drawn order
+			nb := c.Int("bundles", 1, 2)
+			type target struct {
+				data []byte
+				hash []byte
+				blk  *integrityblock.IntegrityBlock
+				ibs  *integrityblock.IntegrityBlockSigner
+				good int
+			}
+			var targets []*target
+			for b := 0; b < nb; b++ {
+				tg := &target{data: c.Bytes("file.data", 8, 300)}
+				sum := sha512.Sum512(tg.data)
+				tg.hash = sum[:]
+				tg.blk = &integrityblock.IntegrityBlock{Magic: integrityblock.IntegrityBlockMagic, Version: integrityblock.VersionB1}
+				tg.ibs = &integrityblock.IntegrityBlockSigner{WebBundleHash: tg.hash, IntegrityBlock: tg.blk}
+				targets = append(targets, tg)
+			}
+			k := c.Int("signings", 1, 4) * nb
 			good := 0
 			type kept struct{ got, want []byte }
 			var earlierBlocks []kept
 			allowFaults := c.Bool("allowHsmFaults")
 			var fired []string
 			for i := 0; i < k; i++ {
+				tg := targets[c.Pick("target", nb)]
+				data, hash, blk, ibs := tg.data, tg.hash, tg.blk, tg.ibs
+				good = tg.good
 				h := newHSM(c, fmt.Sprintf("hsm%d", i), allowFaults)
 				ibs.SigningStrategy = h
 				pub, perr := h.GetPublicKey()
@@ -211,6 +228,7 @@ func TestHistory(t *testing.T) {
 				if !c.Oracle("C07") {
 					if err == nil {
 						good++
+						tg.good = good
 					}
 					continue
 				}
@@ -227,6 +245,7 @@ func TestHistory(t *testing.T) {
 					c.Violation("sign-error", "SignAndAddNewSignature", "honest strategy refused: %v", err)
 				}
 				good++
+				tg.good = good
 				if len(blk.SignatureStack) != len(beforeStack)+1 {
 					c.Violation("stack-growth", "SignAndAddNewSignature", "stack went from %d to %d entries", len(beforeStack), len(blk.SignatureStack))
 				}
